@@ -9,7 +9,7 @@ CONSTANTS
   MaxLate = 1
   MaxInc = 0
   Budget = 0
-  LateKinds = {"write", "promote", "release"}
+  LateKinds = {"write"}
   EarlyStop = FALSE
   MaxDepth = 0
 VIEW View
